@@ -19,8 +19,8 @@ RULE = ('cases = TT tensors / TT matrices of order 1..6, f32/f64/c64/c128, obtai
 ASSUMPTIONS = ['the unpickling policy is whatever the installed torch enforces (weights_only default) - that is the environment users have']
 REQUIRED_REACH = ['_extras:save', '_extras:load', '_tt_base:TT.clone', '_tt_base:TT.detach', '_tt_base:TT.cpu', '_tt_base:TT.to', '_tt_base:TT.numpy']
 REQUIRED_COUNTS = {'op:saveload': 1, 'op:clone': 1, 'clone_independence_histories': 20, 'op:detach': 1, 'op:cpu': 1, 'op:to': 1, 'op:numpy': 1, 'source:svd': 1, 'source:slice': 1, 'source:transpose': 1,
-                   'source:round': 1, 'loaded_cores_bit_identical': 10}
-SOURCES = ['cores', 'svd', 'svd_ttm', 'slice', 'transpose', 'conj', 'round', 'sum']
+                   'source:round': 1, 'source:buffer': 5, 'loaded_cores_bit_identical': 10}
+SOURCES = ['cores', 'svd', 'svd_ttm', 'slice', 'transpose', 'conj', 'round', 'sum', 'buffer']
 OPS = ['saveload', 'clone', 'detach', 'detach_tracked', 'cpu', 'to', 'numpy']
 DTS = ['f64', 'f32', 'c128', 'c64']
 
@@ -57,6 +57,11 @@ def build(case, ctx, g):
         t = ctx.call('TT(dense,shape)', lambda a: torchtt.TT(a, [(m, n) for m, n in zip(M, N)], eps=1e-6), A)
         ctx.count('svd_rank_element_types:' + '+'.join(sorted({type(r).__name__ for r in t.R})))
         return t
+    if src == 'buffer':
+        # cores = views into ONE flat buffer at consecutive offsets; uniform interior structure every second time (equal shape and strides, different offsets)
+        if case['seed'] % 2 == 0 and d >= 3:
+            N, M, R = [N[0]] * d, [M[0]] * d, [1] + [R[1]] * (d - 1) + [1]
+        return torchtt.TT(gens.buffer_views(gens.make_cores(N, R, dt, 'gauss', g, M=M if ttm else None)))
     base = gens.make_tt(N, R, dt, 'gauss', g, M=M if ttm else None)
     if src == 'cores':
         return base
